@@ -75,3 +75,70 @@ fn verif_c07_invalid_namespace_in_reconstructed_share() {
         Ok(r) => println!("NO-WITNESS D16: validate returned {r:?}"),
     }
 }
+
+// ---------------------------------------------------------------------------------------------
+// Witness finder / bounded stand-in for C07: 4x4 and 8x8 squares, every axis and index.
+//  - soundness: on an honestly encoded block no fraud proof built from real shares and real inclusion proofs validates,
+//    whatever mix of proof axes, and neither after swapping two shares, dropping shares down to half, or re-labelling
+//    the index;
+//  - completeness: after corrupting more than half of one row/column (data part only), the proof for that axis built
+//    from real inclusion proofs validates, for every mix of proof axes the helper draws.
+// A panic of the nmt-rs dependency (finding D17) counts as "rejected"; any other panic is a witness.
+// ---------------------------------------------------------------------------------------------
+fn c07_validates(p: &BadEncodingFraudProof, eh: &ExtendedHeader) -> bool {
+    let (p, eh) = (p.clone(), eh.clone());
+    match std::panic::catch_unwind(move || p.validate(&eh).is_ok()) {
+        Ok(b) => b,
+        Err(e) => {
+            let msg = e.downcast_ref::<String>().cloned().or_else(|| e.downcast_ref::<&str>().map(|s| s.to_string())).unwrap_or_default();
+            if msg.contains("left max namespace must be <= right min namespace") { false } else { println!("WITNESS C07/C16: BadEncodingFraudProof::validate panicked: {msg}"); panic!("witness"); }
+        }
+    }
+}
+
+#[test]
+fn verif_enum_befp() {
+    use crate::consts::appconsts::{FIRST_SPARSE_SHARE_CONTENT_SIZE, SHARE_SIZE};
+    let mut cases = 0u64;
+    for width in [4usize, 8] {
+        let mut generator = ExtendedHeaderGenerator::new();
+        let eds = generate_dummy_eds(width, AppVersion::V2);
+        let dah = DataAvailabilityHeader::from_eds(&eds);
+        let eh = generator.next_with_dah(dah);
+        let w = eds.square_width();
+        for axis in [AxisType::Row, AxisType::Col] { for idx in 0..w { for _rep in 0..6 {
+            let honest = befp_from_header_and_eds(&eh, &eds, idx, axis);
+            cases += 1;
+            if c07_validates(&honest, &eh) { println!("WITNESS C07: a fraud proof for {axis:?} {idx} of an HONESTLY encoded {width}x{width} block validates"); panic!("witness"); }
+            // permutations, omissions, re-labelled index
+            for (a, b) in [(0usize, 1usize), (0, usize::from(w) - 1), (1, 2)] {
+                cases += 1;
+                let mut f = honest.clone(); f.shares.swap(a, b);
+                if c07_validates(&f, &eh) { println!("WITNESS C07: honest block, proof for {axis:?} {idx} with shares {a} and {b} swapped validates (width {width})"); panic!("witness"); }
+            }
+            cases += 1;
+            let mut f = honest.clone(); for k in 0..usize::from(w) / 2 { f.shares[2 * k] = None; }
+            if c07_validates(&f, &eh) { println!("WITNESS C07: honest block, proof for {axis:?} {idx} with every other share omitted validates (width {width})"); panic!("witness"); }
+            cases += 1;
+            let mut f = honest.clone(); f.index = (idx + 1) % w;
+            if c07_validates(&f, &eh) { println!("WITNESS C07: honest block, proof for {axis:?} {idx} re-labelled as index {} validates (width {width})", f.index); panic!("witness"); }
+        }}}
+        // completeness: corrupt one axis at a time
+        for axis in [AxisType::Row, AxisType::Col] { for idx in 0..w {
+            let mut bad = eds.clone();
+            for k in 0..=w / 2 {
+                let share = match axis { AxisType::Row => bad.share_mut(idx, k).unwrap(), AxisType::Col => bad.share_mut(k, idx).unwrap() };
+                let offset = SHARE_SIZE - FIRST_SPARSE_SHARE_CONTENT_SIZE;
+                for (j, byte) in share.as_mut()[offset..].iter_mut().enumerate() { *byte = byte.wrapping_add(1 + (j as u8 & 3)); }
+            }
+            let bad_dah = DataAvailabilityHeader::from_eds(&bad);
+            let bad_eh = generator.next_with_dah(bad_dah);
+            for _rep in 0..4 {
+                cases += 1;
+                let proof = befp_from_header_and_eds(&bad_eh, &bad, idx, axis);
+                if !c07_validates(&proof, &bad_eh) { println!("WITNESS C07: {axis:?} {idx} of a {width}x{width} block is corrupted in {} shares but the fraud proof carrying all its shares is rejected", w / 2 + 1); panic!("witness"); }
+            }
+        }}
+    }
+    println!("ENUM-OK cases={cases}");
+}
